@@ -664,5 +664,562 @@ theorem post_sim (lg : Obj) (rest : List Nat) : ∀ (fuel : Nat) (x : Nat) (c : 
         have := hrec.sim
         simpa using this
 
+/-! ### arming -/
+
+theorem armC_frame (c : Center) (chain : List Nat) :
+    (armC c chain).registry = c.registry ∧ (armC c chain).holds = c.holds ∧
+    (armC c chain).disabled = c.disabled ∧ (armC c chain).dead = c.dead := by
+  induction chain generalizing c with
+  | nil => exact ⟨rfl, rfl, rfl, rfl⟩
+  | cons x rest ih =>
+    cases rest with
+    | nil => exact ⟨rfl, rfl, rfl, rfl⟩
+    | cons p r => exact ih _
+
+theorem armC_scripts_other (c : Center) (chain : List Nat) (key : Obj × Meth)
+    (h : ∀ a ∈ chain.tail, (a, childChanged) ≠ key) :
+    AL.get? (armC c chain).scripts key = AL.get? c.scripts key := by
+  induction chain generalizing c with
+  | nil => rfl
+  | cons x rest ih =>
+    cases rest with
+    | nil => rfl
+    | cons p r =>
+      show AL.get? (armC _ (p :: r)).scripts key = _
+      rw [ih _ (fun a ha => h a (List.mem_cons_of_mem _ ha))]
+      exact AL.get?_set_ne _ _ _ _ (h p (by simp))
+
+theorem armC_armed (c : Center) (chain : List Nat) (hnd : chain.Nodup) : Armed (armC c chain) chain := by
+  induction chain generalizing c with
+  | nil => intro a ha; simp at ha
+  | cons x rest ih =>
+    cases rest with
+    | nil => intro a ha; simp at ha
+    | cons p r =>
+      have hnd' : (p :: r).Nodup := (List.nodup_cons.mp hnd).2
+      have hpr : p ∉ r := (List.nodup_cons.mp hnd').1
+      intro a ha
+      simp only [List.tail_cons, List.mem_cons] at ha
+      rcases ha with rfl | ha
+      · show AL.get? (armC _ (a :: r)).scripts (a, childChanged) = _
+        rw [armC_scripts_other _ _ _ (fun b hb e => hpr (by rw [← (Prod.mk.inj e).1]; exact hb))]
+        exact AL.get?_set_self _ _ _
+      · exact ih _ hnd' a ha
+
+/-- running the arming operations = `armC`, and only operation results are emitted -/
+theorem run_arm (fuel : Nat) (chain : List Nat) (ops : List Op) (c : Center) :
+    ∃ pre, (∀ e ∈ pre, ∃ r, e = Ev.ret r) ∧
+      runAll (exec (fuel + 1)) c (arm chain ++ ops) =
+        ((runAll (exec (fuel + 1)) (armC c chain) ops).1, pre ++ (runAll (exec (fuel + 1)) (armC c chain) ops).2) := by
+  induction chain generalizing c with
+  | nil => exact ⟨[], by simp, rfl⟩
+  | cons x rest ih =>
+    cases rest with
+    | nil => exact ⟨[], by simp, rfl⟩
+    | cons p r =>
+      obtain ⟨pre, hpre, he⟩ := ih { c with scripts := AL.set c.scripts (p, childChanged) (parentScript p) }
+      refine ⟨.ret .ok :: pre, ?_, ?_⟩
+      · intro e hm
+        simp only [List.mem_cons] at hm
+        rcases hm with rfl | hm
+        · exact ⟨_, rfl⟩
+        · exact hpre e hm
+      · show runAll (exec (fuel + 1)) c (Op.script p childChanged (parentScript p) :: (arm (p :: r) ++ ops)) = _
+        rw [runAll_cons']
+        show ((runAll (exec (fuel + 1)) { c with scripts := AL.set c.scripts (p, childChanged) (parentScript p) }
+            (arm (p :: r) ++ ops)).1, [Ev.ret Res.ok] ++ (runAll (exec (fuel + 1))
+            { c with scripts := AL.set c.scripts (p, childChanged) (parentScript p) } (arm (p :: r) ++ ops)).2) = _
+        rw [he]
+        rfl
+
+/-- the simulation relation looks at the hold and disable tables only -/
+theorem Sim.congr {c c' : Center} {fl lo : List Nat} {s : Dirty.State} (h : Sim ⟨c, fl, lo⟩ s)
+    (h1 : c'.holds = c.holds) (h2 : c'.disabled = c.disabled) : Sim ⟨c', fl, lo⟩ s := by
+  refine ⟨h.dirty, h.log, ?_, ?_, ?_⟩
+  · show s.holds = absHolds c'
+    unfold absHolds; rw [h1]; exact h.holds
+  · intro y
+    rw [h.pending y]
+    show queued c y ↔ queued c' y
+    unfold queued; rw [h1]
+  · intro y
+    rw [h.disabled y]
+    show AL.contains c.disabled _ = true ↔ AL.contains c'.disabled _ = true
+    rw [h2]
+
+/-- hypotheses of `post_sim` from `Wired`, after arming -/
+theorem Wired.step {lg : Obj} {chain : List Nat} {c c' : Center}
+    (hw : Wired lg chain c) (h1 : c'.registry = c.registry) (h2 : c'.dead = c.dead) (h3 : Shape c')
+    (h4 : AL.get? c'.scripts (lg, logM) = none) : Wired lg chain c' :=
+  ⟨hw.regs.congr h1, h3, hw.nodup, by rw [h2]; exact hw.alive, by rw [h2]; exact hw.lgAlive, h4⟩
+
+/-! ### release -/
+
+theorem sim_erase {c : Center} {fl lo : List Nat} {s : Dirty.State} {x : Nat}
+    (hS : Shape c) (hsim : Sim ⟨c, fl, lo⟩ s) (pend' : List Nat)
+    (hp : ∀ y, y ∈ pend' ↔ y ∈ s.pending ∧ y ≠ x) :
+    Shape { c with holds := AL.erase c.holds (okey x) } ∧
+    Sim ⟨{ c with holds := AL.erase c.holds (okey x) }, fl, lo⟩
+      { s with holds := AL.erase s.holds x, pending := pend' } := by
+  refine ⟨⟨fun q hq => hS.holdKeys q (AL.mem_erase hq), AL.nodup_keys_erase _ _ hS.holdsNodup, hS.disKeys⟩,
+    ⟨hsim.dirty, hsim.log, ?_, ?_, hsim.disabled⟩⟩
+  · show AL.erase s.holds x = (AL.erase c.holds (okey x)).map _
+    rw [al_erase_map nodeOf Hold.count c.holds (okey x) (hS.inj_holds x), hsim.holds]
+    rfl
+  · intro y
+    show y ∈ pend' ↔ queued _ y
+    rw [hp y, hsim.pending y]
+    unfold queued
+    show _ ↔ ∃ h, AL.get? (AL.erase c.holds (okey x)) (okey y) = some h ∧ h.queue ≠ []
+    by_cases e : y = x
+    · subst e
+      rw [AL.get?_erase_self_of_nodup _ _ hS.holdsNodup]
+      simp
+    · rw [AL.get?_erase_ne _ _ _ (okey_ne (fun e' => e e'.symm))]
+      simp [e]
+
+/-- `release` of the object-scoped hold on `x` in a wired and armed centre is M-Dirty's `release` -/
+theorem release_sim (lg : Obj) (fuel : Nat) (x : Nat) (rest : List Nat) (c : Center) (fl lo : List Nat) (s : Dirty.State)
+    (hf : rest.length ≤ fuel) (hnd : (x :: rest).Nodup) (hr : Regs lg (x :: rest) c) (ha : Armed c (x :: rest))
+    (hS : Shape c) (hal : ∀ a ∈ x :: rest, a ∉ c.dead) (hl : lg ∉ c.dead)
+    (hp : AL.get? c.scripts (lg, logM) = none) (hsim : Sim ⟨c, fl, lo⟩ s) :
+    Step lg c fl lo (release (exec fuel) c (okey x)).1 (release (exec fuel) c (okey x)).2
+      (Dirty.release s x rest) := by
+  have hget : AL.get? s.holds x = (AL.get? c.holds (okey x)).map Hold.count := by
+    rw [hsim.holds]; exact get?_absHolds hS x
+  cases hg : AL.get? c.holds (okey x) with
+  | none =>
+    rw [hg] at hget
+    simp only [release, hg, Dirty.release, hget, Option.map_none]
+    exact ⟨rfl, rfl, hS, hp, by simpa using hsim⟩
+  | some h =>
+    rw [hg] at hget
+    simp only [Option.map_some] at hget
+    by_cases hn : h.count - 1 = 0
+    · rcases queue_cases hS hg with hq | hq
+      · -- nothing was queued
+        have hx : x ∉ s.pending := by
+          intro hx
+          obtain ⟨h', hg', hne⟩ := (hsim.pending x).mp hx
+          rw [hg] at hg'; cases hg'
+          exact hne hq
+        obtain ⟨hS1, hsim1⟩ := sim_erase (x := x) hS hsim s.pending
+          (fun y => ⟨fun hy => ⟨hy, fun e => hx (e ▸ hy)⟩, fun hy => hy.1⟩)
+        simp only [release, hg, hn, if_true, hq, runAll, Dirty.release, hget, hx, if_false]
+        exact ⟨rfl, rfl, hS1, hp, by simpa using hsim1⟩
+      · -- `Changed` of `x` was queued: it is posted again
+        have hx : x ∈ s.pending := (hsim.pending x).mpr ⟨h, hg, by rw [hq]; simp⟩
+        obtain ⟨hS1, hsim1⟩ := sim_erase (x := x) hS hsim (s.pending.filter (· ≠ x))
+          (fun y => by simp)
+        have hxa : x ∉ c.dead := hal x (by simp)
+        have hrec := post_sim lg rest fuel x { c with holds := AL.erase c.holds (okey x) } fl lo _ hf hnd
+          (Regs.congr (c := c) rfl hr) ha hS1 hal hl hp hsim1
+        have hrel : release (exec fuel) c (okey x) =
+            ((post (exec fuel) { c with holds := AL.erase c.holds (okey x) } changed x 0 none).1,
+              (post (exec fuel) { c with holds := AL.erase c.holds (okey x) } changed x 0 none).2 ++ [.ret .ok]) := by
+          simp [release, hg, hn, hq, runAll, repost, note, hxa]
+        have hdr : Dirty.release s x rest =
+            Dirty.announce { s with holds := AL.erase s.holds x, pending := s.pending.filter (· ≠ x) } (x :: rest) := by
+          simp [Dirty.release, hget, hn, hx]
+        rw [hrel, hdr]
+        refine ⟨hrec.registry, hrec.dead, hrec.shape, hrec.lgPlain, ?_⟩
+        have := hrec.sim
+        simpa using this
+    · -- a nested hold: only the count goes down
+      simp only [release, hg, hn, if_false, Dirty.release, hget]
+      refine ⟨rfl, rfl, ⟨?_, AL.nodup_keys_set _ _ _ hS.holdsNodup, hS.disKeys⟩, hp, ?_⟩
+      · intro q hqm
+        rcases AL.mem_set hqm with e | e
+        · subst e
+          exact ⟨x, rfl, (queue_cases hS hg : h.queue = [] ∨ h.queue = [note x])⟩
+        · exact hS.holdKeys q e
+      · simp only [observe_cons, observe_nil, obsEv_ret]
+        refine ⟨hsim.dirty, hsim.log, ?_, ?_, hsim.disabled⟩
+        · show AL.set s.holds x (h.count - 1) = (AL.set c.holds (okey x) _).map _
+          rw [al_set_map nodeOf Hold.count c.holds (okey x) _ (hS.inj_holds x), hsim.holds]
+          rfl
+        · intro y
+          rw [hsim.pending y]
+          show queued c y ↔ ∃ h', AL.get? (AL.set c.holds (okey x) _) (okey y) = some h' ∧ h'.queue ≠ []
+          unfold queued
+          by_cases e : y = x
+          · subst e
+            rw [AL.get?_set_self, hg]
+            simp
+          · rw [AL.get?_set_ne _ _ _ _ (okey_ne (fun e' => e e'.symm))]
+
+/-! ### the four operations of M-Dirty, simulated -/
+
+theorem Regs.suffix {lg : Obj} {c : Center} (pre : List Nat) {chain : List Nat} (h : Regs lg (pre ++ chain) c) :
+    Regs lg chain c := by
+  induction pre with
+  | nil => exact h
+  | cons a pre ih => exact ih (Regs.tail (x := a) h)
+
+/-- a centre wired for a chain is wired for every upper part of it -/
+theorem Wired.suffix {lg : Obj} {c : Center} (pre : List Nat) {chain : List Nat} (h : Wired lg (pre ++ chain) c) :
+    Wired lg chain c :=
+  ⟨h.regs.suffix pre, h.shape, (List.nodup_append.mp h.nodup).2.1,
+    fun a ha => h.alive a (List.mem_append_right _ ha), h.lgAlive, h.lgPlain⟩
+
+/-- arm, then one operation: what is observed is what that operation emits -/
+theorem cRun_arm (lg : Obj) (f : Nat) (k : Conc) (chain : List Nat) (op : Op) :
+    cRun lg (f + 1) k (arm chain ++ [op]) =
+      ⟨(exec (f + 1) (armC k.centre chain) op).1,
+        (observe lg (exec (f + 1) (armC k.centre chain) op).2 (k.flags, k.log)).1,
+        (observe lg (exec (f + 1) (armC k.centre chain) op).2 (k.flags, k.log)).2⟩ := by
+  obtain ⟨pre, hpre, he⟩ := run_arm f chain [op] k.centre
+  unfold cRun run
+  rw [he]
+  simp only [observe_append, observe_rets lg pre hpre, runAll, List.append_nil]
+
+/-- what one top-level operation establishes -/
+structure Ok (lg : Obj) (chain : List Nat) (k k' : Conc) (s' : Dirty.State) : Prop where
+  registry : k'.centre.registry = k.centre.registry
+  wired : Wired lg chain k'.centre
+  sim : Sim k' s'
+
+theorem touch_ok (lg : Obj) (fuel : Nat) (k : Conc) (s : Dirty.State) (chain pre : List Nat) (x : Nat) (rest : List Nat)
+    (hc : chain = pre ++ x :: rest) (hw : Wired lg chain k.centre) (hf : (x :: rest).length ≤ fuel) (hsim : Sim k s) :
+    Ok lg chain k (cTouch lg fuel k x rest) (Dirty.touch s x rest) := by
+  obtain ⟨f, rfl⟩ : ∃ f, fuel = f + 1 := by
+    cases fuel with
+    | zero => simp at hf
+    | succ f => exact ⟨f, rfl⟩
+  have hw' : Wired lg (x :: rest) k.centre := Wired.suffix pre (hc ▸ hw)
+  obtain ⟨a1, a2, a3, a4⟩ := armC_frame k.centre (x :: rest)
+  have hsim0 : Sim ⟨armC k.centre (x :: rest), setFlagL k.flags x, k.log⟩ (Dirty.setFlag s x) := by
+    refine Sim.congr (c := k.centre) ⟨?_, ?_, ?_, ?_, ?_⟩ a2 a3
+    · rw [setFlag_dirty, hsim.dirty]
+    · rw [setFlag_log]; exact hsim.log
+    · rw [setFlag_holds]; exact hsim.holds
+    · rw [setFlag_pending]; exact hsim.pending
+    · rw [setFlag_disabled]; exact hsim.disabled
+  have hst := post_sim lg rest f x (armC k.centre (x :: rest)) (setFlagL k.flags x) k.log _
+    (by simpa using hf) hw'.nodup (hw'.regs.congr a1) (armC_armed _ _ hw'.nodup) (hw'.shape.congr a2 a3)
+    (by rw [a4]; exact hw'.alive) (by rw [a4]; exact hw'.lgAlive)
+    (by rw [armC_scripts_other _ _ _ (fun a _ => by simp [logM, childChanged])]; exact hw'.lgPlain) hsim0
+  unfold cTouch
+  rw [cRun_arm]
+  have hex : exec (f + 1) (armC k.centre (x :: rest)) (.post changed x 0 none) =
+      ((post (exec f) (armC k.centre (x :: rest)) changed x 0 none).1,
+        (post (exec f) (armC k.centre (x :: rest)) changed x 0 none).2 ++ [.ret .ok]) := rfl
+  rw [hex]
+  have hreg := hst.registry.trans a1
+  refine ⟨hreg, hw.step hreg (hst.dead.trans a4) hst.shape hst.lgPlain, ?_⟩
+  have := hst.sim
+  simpa [Dirty.touch] using this
+
+theorem release_ok (lg : Obj) (fuel : Nat) (k : Conc) (s : Dirty.State) (chain pre : List Nat) (x : Nat) (rest : List Nat)
+    (hc : chain = pre ++ x :: rest) (hw : Wired lg chain k.centre) (hf : (x :: rest).length ≤ fuel) (hsim : Sim k s) :
+    Ok lg chain k (cRelease lg fuel k x rest) (Dirty.release s x rest) := by
+  obtain ⟨f, rfl⟩ : ∃ f, fuel = f + 1 := by
+    cases fuel with
+    | zero => simp at hf
+    | succ f => exact ⟨f, rfl⟩
+  have hw' : Wired lg (x :: rest) k.centre := Wired.suffix pre (hc ▸ hw)
+  obtain ⟨a1, a2, a3, a4⟩ := armC_frame k.centre (x :: rest)
+  have hsim0 : Sim ⟨armC k.centre (x :: rest), k.flags, k.log⟩ s := Sim.congr (c := k.centre) hsim a2 a3
+  have hst := release_sim lg f x rest (armC k.centre (x :: rest)) k.flags k.log s
+    (by simpa using hf) hw'.nodup (hw'.regs.congr a1) (armC_armed _ _ hw'.nodup) (hw'.shape.congr a2 a3)
+    (by rw [a4]; exact hw'.alive) (by rw [a4]; exact hw'.lgAlive)
+    (by rw [armC_scripts_other _ _ _ (fun a _ => by simp [logM, childChanged])]; exact hw'.lgPlain) hsim0
+  unfold cRelease
+  rw [cRun_arm]
+  have hex : exec (f + 1) (armC k.centre (x :: rest)) (.release none (some x) none) =
+      release (exec f) (armC k.centre (x :: rest)) (okey x) := rfl
+  rw [hex]
+  have hreg := hst.registry.trans a1
+  exact ⟨hreg, hw.step hreg (hst.dead.trans a4) hst.shape hst.lgPlain, hst.sim⟩
+
+theorem hold_ok (lg : Obj) (fuel : Nat) (k : Conc) (s : Dirty.State) (chain : List Nat) (x : Nat)
+    (hw : Wired lg chain k.centre) (hf : 1 ≤ fuel) (hsim : Sim k s) :
+    Ok lg chain k (cHold lg fuel k x) (Dirty.hold s x) := by
+  obtain ⟨f, rfl⟩ : ∃ f, fuel = f + 1 := ⟨fuel - 1, by omega⟩
+  have hS := hw.shape
+  have hrun : cHold lg (f + 1) k x = ⟨hold k.centre (okey x) none, k.flags, k.log⟩ := rfl
+  rw [hrun]
+  have hget : AL.get? s.holds x = (AL.get? k.centre.holds (okey x)).map Hold.count := by
+    rw [hsim.holds]; exact get?_absHolds hS x
+  have hShape : Shape (hold k.centre (okey x) none) := by
+    refine ⟨?_, AL.nodup_keys_set _ _ _ hS.holdsNodup, hS.disKeys⟩
+    intro q hqm
+    rcases AL.mem_set hqm with e | e
+    · subst e
+      refine ⟨x, rfl, ?_⟩
+      cases hg : AL.get? k.centre.holds (okey x) with
+      | none => exact Or.inl rfl
+      | some h0 => exact (queue_cases hS hg : h0.queue = [] ∨ h0.queue = [note x])
+    · exact hS.holdKeys q e
+  refine ⟨rfl, hw.step rfl rfl hShape hw.lgPlain, ⟨hsim.dirty, hsim.log, ?_, ?_, hsim.disabled⟩⟩
+  · show AL.set s.holds x ((AL.get? s.holds x).getD 0 + 1) = (AL.set k.centre.holds (okey x) _).map _
+    have hh : s.holds = List.map (fun p => (nodeOf p.1, Hold.count p.2)) k.centre.holds := hsim.holds
+    rw [hget, al_set_map nodeOf Hold.count k.centre.holds (okey x) _ (hS.inj_holds x), ← hh]
+    cases AL.get? k.centre.holds (okey x) <;> rfl
+  · intro y
+    show y ∈ s.pending ↔ ∃ h', AL.get? (AL.set k.centre.holds (okey x) _) (okey y) = some h' ∧ h'.queue ≠ []
+    rw [hsim.pending y]
+    unfold queued
+    by_cases e : y = x
+    · subst e
+      rw [AL.get?_set_self]
+      cases AL.get? k.centre.holds (okey y) <;> simp
+    · rw [AL.get?_set_ne _ _ _ _ (okey_ne (fun e' => e e'.symm))]
+
+theorem disable_ok (lg : Obj) (fuel : Nat) (k : Conc) (s : Dirty.State) (chain : List Nat) (x : Nat)
+    (hw : Wired lg chain k.centre) (hf : 1 ≤ fuel) (hsim : Sim k s) :
+    Ok lg chain k (cDisable lg fuel k x) (Dirty.disable s x) := by
+  obtain ⟨f, rfl⟩ : ∃ f, fuel = f + 1 := ⟨fuel - 1, by omega⟩
+  have hS := hw.shape
+  have hrun : cDisable lg (f + 1) k x = ⟨disable k.centre (okey x), k.flags, k.log⟩ := rfl
+  rw [hrun]
+  have hShape : Shape (disable k.centre (okey x)) := by
+    refine ⟨hS.holdKeys, hS.holdsNodup, ?_⟩
+    intro q hqm
+    rcases AL.mem_set hqm with e | e
+    · subst e; exact ⟨x, rfl⟩
+    · exact hS.disKeys q e
+  refine ⟨rfl, hw.step rfl rfl hShape hw.lgPlain, ⟨hsim.dirty, hsim.log, hsim.holds, hsim.pending, ?_⟩⟩
+  intro y
+  show y ∈ x :: s.disabled ↔ AL.contains (AL.set k.centre.disabled (okey x) _) (okey y) = true
+  rw [AL.contains_set, List.mem_cons, hsim.disabled y]
+  by_cases e : y = x
+  · subst e; simp
+  · have : okey x ≠ okey y := okey_ne (fun e' => e e'.symm)
+    simp [e, this]
+
+/-- **touch_simulates.**  In a centre wired for a chain, with an arbitrary pattern of object-scoped holds and
+disables, storing the flag of a chain node `x` and executing `post Changed x` (fuel ≥ length of `x`'s chain) is, seen
+through the abstraction, exactly M-Dirty's `touch` (the centre stays wired: next theorem). -/
+theorem touch_simulates (lg : Obj) (fuel : Nat) (k : Conc) (s : Dirty.State) (chain pre : List Nat) (x : Nat)
+    (rest : List Nat) (hc : chain = pre ++ x :: rest) (hw : Wired lg chain k.centre)
+    (hf : (x :: rest).length ≤ fuel) (hsim : Sim k s) :
+    Sim (cTouch lg fuel k x rest) (Dirty.touch s x rest) :=
+  (touch_ok lg fuel k s chain pre x rest hc hw hf hsim).sim
+
+/-- **release_simulates**: `release (None, x, None)` in the centre is M-Dirty's `release` -/
+theorem release_simulates (lg : Obj) (fuel : Nat) (k : Conc) (s : Dirty.State) (chain pre : List Nat) (x : Nat)
+    (rest : List Nat) (hc : chain = pre ++ x :: rest) (hw : Wired lg chain k.centre)
+    (hf : (x :: rest).length ≤ fuel) (hsim : Sim k s) :
+    Sim (cRelease lg fuel k x rest) (Dirty.release s x rest) :=
+  (release_ok lg fuel k s chain pre x rest hc hw hf hsim).sim
+
+/-- **hold_simulates** (any object `x`, on the chain or not) -/
+theorem hold_simulates (lg : Obj) (fuel : Nat) (k : Conc) (s : Dirty.State) (chain : List Nat) (x : Nat)
+    (hw : Wired lg chain k.centre) (hf : 1 ≤ fuel) (hsim : Sim k s) :
+    Sim (cHold lg fuel k x) (Dirty.hold s x) :=
+  (hold_ok lg fuel k s chain x hw hf hsim).sim
+
+/-- **disable_simulates** (any object `x`) -/
+theorem disable_simulates (lg : Obj) (fuel : Nat) (k : Conc) (s : Dirty.State) (chain : List Nat) (x : Nat)
+    (hw : Wired lg chain k.centre) (hf : 1 ≤ fuel) (hsim : Sim k s) :
+    Sim (cDisable lg fuel k x) (Dirty.disable s x) :=
+  (disable_ok lg fuel k s chain x hw hf hsim).sim
+
+/-! ### the abstraction function -/
+
+theorem contains_of_mem {α : Type} {l : List (HKey × α)} {k : HKey} {v : α} (h : (k, v) ∈ l) : AL.contains l k = true := by
+  induction l with
+  | nil => simp at h
+  | cons q r ih =>
+    obtain ⟨k', v'⟩ := q
+    by_cases e : k' = k
+    · simp [AL.contains, e]
+    · simp only [List.mem_cons, Prod.mk.injEq] at h
+      rcases h with h | h
+      · exact absurd h.1.symm e
+      · have := ih h
+        simpa [AL.contains, e] using this
+
+/-- the abstraction of a well-shaped centre is in the simulation relation with it -/
+theorem sim_abs (k : Conc) (hS : Shape k.centre) : Sim k (abs k) := by
+  refine ⟨rfl, rfl, rfl, ?_, ?_⟩
+  · intro y
+    show y ∈ (k.centre.holds.filter (fun p => !p.2.queue.isEmpty)).map (fun p => nodeOf p.1) ↔ queued k.centre y
+    constructor
+    · intro hy
+      obtain ⟨p, hp, hpy⟩ := List.mem_map.mp hy
+      obtain ⟨hpm, hq⟩ := List.mem_filter.mp hp
+      obtain ⟨y', hy', _⟩ := hS.holdKeys p hpm
+      have : y' = y := by rw [hy'] at hpy; simpa using hpy
+      subst this
+      refine ⟨p.2, ?_, by simpa using hq⟩
+      rw [← hy']
+      exact AL.get?_of_mem_nodup hS.holdsNodup hpm
+    · rintro ⟨h, hg, hne⟩
+      refine List.mem_map.mpr ⟨(okey y, h), List.mem_filter.mpr ⟨AL.mem_of_get? hg, by simpa using hne⟩, rfl⟩
+  · intro y
+    show y ∈ k.centre.disabled.map (fun p => nodeOf p.1) ↔ _
+    constructor
+    · intro hy
+      obtain ⟨p, hp, hpy⟩ := List.mem_map.mp hy
+      obtain ⟨y', hy'⟩ := hS.disKeys p hp
+      have : y' = y := by rw [hy'] at hpy; simpa using hpy
+      subst this
+      rw [← hy']
+      exact contains_of_mem (v := p.2) hp
+    · intro hc
+      obtain ⟨v, hg⟩ := (AL.contains_iff_get? _ _).mp hc
+      exact List.mem_map.mpr ⟨(okey y, v), AL.mem_of_get? hg, rfl⟩
+
+/-- the simulation relation IS "equal to the abstraction, up to the order of `pending` and `disabled`" -/
+theorem sim_iff_eqv (k : Conc) (hS : Shape k.centre) (s : Dirty.State) : Sim k s ↔ Eqv (abs k) s := by
+  have h0 := sim_abs k hS
+  constructor
+  · intro h
+    exact ⟨h0.dirty.trans h.dirty.symm, h0.log.trans h.log.symm, h0.holds.trans h.holds.symm,
+      fun y => (h0.pending y).trans (h.pending y).symm, fun y => (h0.disabled y).trans (h.disabled y).symm⟩
+  · intro h
+    exact ⟨h.dirty.symm.trans h0.dirty, h.log.symm.trans h0.log, h.holds.symm.trans h0.holds,
+      fun y => (h.pending y).symm.trans (h0.pending y), fun y => (h.disabled y).symm.trans (h0.disabled y)⟩
+
+/-- the functional reading of `touch_simulates`: abstraction commutes with the change, up to `Eqv` -/
+theorem abs_touch (lg : Obj) (fuel : Nat) (k : Conc) (x : Nat) (rest : List Nat)
+    (hw : Wired lg (x :: rest) k.centre) (hf : (x :: rest).length ≤ fuel) :
+    Eqv (abs (cTouch lg fuel k x rest)) (Dirty.touch (abs k) x rest) := by
+  have h := touch_ok lg fuel k (abs k) (x :: rest) [] x rest rfl hw hf (sim_abs k hw.shape)
+  exact (sim_iff_eqv _ h.wired.shape _).mp h.sim
+
+/-- … and with the release of a hold -/
+theorem abs_release (lg : Obj) (fuel : Nat) (k : Conc) (x : Nat) (rest : List Nat)
+    (hw : Wired lg (x :: rest) k.centre) (hf : (x :: rest).length ≤ fuel) :
+    Eqv (abs (cRelease lg fuel k x rest)) (Dirty.release (abs k) x rest) := by
+  have h := release_ok lg fuel k (abs k) (x :: rest) [] x rest rfl hw hf (sim_abs k hw.shape)
+  exact (sim_iff_eqv _ h.wired.shape _).mp h.sim
+
+/-- **The wiring is invariant**: none of the four executions changes the registry - callbacks included - and the
+centre they leave is wired for the same chain. -/
+theorem wiring_invariant (lg : Obj) (fuel : Nat) (k : Conc) (chain pre : List Nat) (x : Nat) (rest : List Nat)
+    (hc : chain = pre ++ x :: rest) (hw : Wired lg chain k.centre) (hf : (x :: rest).length ≤ fuel) (y : Nat) :
+    ((cTouch lg fuel k x rest).centre.registry = k.centre.registry ∧ Wired lg chain (cTouch lg fuel k x rest).centre) ∧
+    ((cRelease lg fuel k x rest).centre.registry = k.centre.registry ∧ Wired lg chain (cRelease lg fuel k x rest).centre) ∧
+    ((cHold lg fuel k y).centre.registry = k.centre.registry ∧ Wired lg chain (cHold lg fuel k y).centre) ∧
+    ((cDisable lg fuel k y).centre.registry = k.centre.registry ∧ Wired lg chain (cDisable lg fuel k y).centre) := by
+  have h1 : 1 ≤ fuel := by simp at hf; omega
+  have hs := sim_abs k hw.shape
+  have a := touch_ok lg fuel k _ chain pre x rest hc hw hf hs
+  have b := release_ok lg fuel k _ chain pre x rest hc hw hf hs
+  have c := hold_ok lg fuel k _ chain y hw h1 hs
+  have d := disable_ok lg fuel k _ chain y hw h1 hs
+  exact ⟨⟨a.registry, a.wired⟩, ⟨b.registry, b.wired⟩, ⟨c.registry, c.wired⟩, ⟨d.registry, d.wired⟩⟩
+
+/-! ### the canonical wired centre -/
+
+theorem get?_append_of_none {κ α : Type} [DecidableEq κ] (l m : List (κ × α)) (k : κ) (h : AL.get? l k = none) :
+    AL.get? (l ++ m) k = AL.get? m k := by
+  induction l with
+  | nil => rfl
+  | cons q r ih =>
+    obtain ⟨k', v⟩ := q
+    by_cases e : k' = k
+    · simp [e] at h
+    · simp only [AL.get?_cons, e, if_false] at h
+      simp only [List.cons_append, AL.get?_cons, e, if_false]
+      exact ih h
+
+theorem set_absent {κ α : Type} [DecidableEq κ] (l : List (κ × α)) (k : κ) (v : α) (h : AL.get? l k = none) :
+    AL.set l k v = l ++ [(k, v)] := by
+  induction l with
+  | nil => rfl
+  | cons q r ih =>
+    obtain ⟨k', v'⟩ := q
+    by_cases e : k' = k
+    · simp [e] at h
+    · simp only [AL.get?_cons, e, if_false] at h
+      simp only [AL.set, e, if_false, List.cons_append]
+      rw [ih h]
+
+theorem get?_wireReg_none (chain : List Nat) (k : RKey) (h : ∀ a ∈ chain, k ≠ (some changed, some a)) :
+    AL.get? (wireReg chain) k = none := by
+  induction chain with
+  | nil => rfl
+  | cons x rest ih =>
+    cases rest with
+    | nil => rfl
+    | cons p r =>
+      show AL.get? (((some changed, some x), _) :: wireReg (p :: r)) k = none
+      rw [AL.get?_cons, if_neg (fun e => h x (by simp) e.symm)]
+      exact ih (fun a ha => h a (List.mem_cons_of_mem _ ha))
+
+theorem regChain_wire (chain : List Nat) (hnd : chain.Nodup) (c : Center) (pre : List (RKey × List Reg))
+    (hc : c.registry = pre ++ wireReg chain) (hpre : ∀ a ∈ chain, AL.get? pre (some changed, some a) = none) :
+    RegChain c chain := by
+  induction chain generalizing pre with
+  | nil => trivial
+  | cons x rest ih =>
+    cases rest with
+    | nil =>
+      show regsAt c _ = []
+      unfold regsAt
+      rw [hc, get?_append_of_none _ _ _ (hpre x (by simp))]
+      rfl
+    | cons p r =>
+      have hx : x ∉ p :: r := (List.nodup_cons.mp hnd).1
+      refine ⟨?_, ?_⟩
+      · unfold regsAt
+        rw [hc, get?_append_of_none _ _ _ (hpre x (by simp))]
+        simp [wireReg]
+      · refine ih (List.nodup_cons.mp hnd).2 (pre ++ [((some changed, some x), [⟨p, childChanged, none⟩])]) ?_ ?_
+        · rw [hc]; simp [wireReg]
+        · intro a ha
+          rw [get?_append_of_none _ _ _ (hpre a (List.mem_cons_of_mem _ ha))]
+          have : x ≠ a := fun e => hx (e ▸ ha)
+          simp [this]
+
+/-- the canonical wired centre of a chain of distinct nodes is wired -/
+theorem wiring_wired (lg : Obj) (chain : List Nat) (hnd : chain.Nodup) : Wired lg chain (wiring lg chain) := by
+  refine ⟨⟨?_, ?_, ?_, ?_⟩, ⟨by intro p hp; simp [wiring] at hp, by simp [wiring, AL.keys], by intro p hp; simp [wiring] at hp⟩,
+    hnd, by intro a _; simp [wiring], by simp [wiring], rfl⟩
+  · simp [regsAt, wiring]
+  · unfold regsAt wiring
+    simp only [AL.get?_cons]
+    rw [if_neg (by simp), get?_wireReg_none chain _ (by intro a _; simp)]
+    rfl
+  · intro x _
+    unfold regsAt wiring
+    simp only [AL.get?_cons]
+    rw [if_neg (by simp), get?_wireReg_none chain _ (by intro a _; simp)]
+    rfl
+  · refine regChain_wire chain hnd _ [((none, none), [⟨lg, logM, none⟩])] rfl ?_
+    intro a _
+    simp
+
+/-- … and it is what the `addObserver` calls of the tree build, starting from any centre that has no
+registration under the keys `(Changed, xᵢ)` yet -/
+theorem run_wireAdds (chain : List Nat) (hnd : chain.Nodup) (c : Center)
+    (hc : ∀ a ∈ chain, AL.get? c.registry (some changed, some a) = none) :
+    (run 1 c (wireAdds chain)).1 = { c with registry := c.registry ++ wireReg chain } := by
+  induction chain generalizing c with
+  | nil => simp [wireAdds, wireReg, run, runAll]
+  | cons x rest ih =>
+    cases rest with
+    | nil => simp [wireAdds, wireReg, run, runAll]
+    | cons p r =>
+      have hx : x ∉ p :: r := (List.nodup_cons.mp hnd).1
+      have hg := hc x (by simp)
+      have hadd : (exec 1 c (.add p childChanged (some changed) (some x) none)).1 =
+          { c with registry := c.registry ++ [((some changed, some x), [⟨p, childChanged, none⟩])] } := by
+        simp [exec, step, add, hasReg, regsAt, hg, set_absent _ _ _ hg]
+      show (runAll (exec 1) c (_ :: wireAdds (p :: r))).1 = _
+      rw [runAll_cons']
+      show (run 1 _ (wireAdds (p :: r))).1 = _
+      rw [hadd, ih (List.nodup_cons.mp hnd).2]
+      · simp [wireReg]
+      · intro a ha
+        show AL.get? (c.registry ++ _) _ = none
+        rw [get?_append_of_none _ _ _ (hc a (List.mem_cons_of_mem _ ha))]
+        have : x ≠ a := fun e => hx (e ▸ ha)
+        simp [this]
+
+theorem wiring_eq_adds (lg : Obj) (chain : List Nat) (hnd : chain.Nodup) :
+    (run 1 {} (.add lg logM none none none :: wireAdds chain)).1 = wiring lg chain := by
+  show (runAll (exec 1) {} (_ :: wireAdds chain)).1 = _
+  rw [runAll_cons']
+  show (run 1 (exec 1 {} (.add lg logM none none none)).1 (wireAdds chain)).1 = _
+  have h0 : (exec 1 {} (.add lg logM none none none)).1 = { registry := [((none, none), [⟨lg, logM, none⟩])] } := by
+    simp [exec, step, add, hasReg, regsAt, AL.set]
+  rw [h0, run_wireAdds chain hnd _ (by intro a _; simp)]
+  rfl
+
 end Link
 end DefconModel
